@@ -111,10 +111,11 @@ PROPS['C04'] = {
 }
 PROPS['C16'] = {
     'level': 'exploration', 'budget': {'quick': 50, 'thorough': 900},
-    'parts': [{'sim': 'connid', 'share': 2}, {'sim': 'shutdown', 'share': 1}],
+    'parts': [{'sim': 'connid', 'share': 2}, {'sim': 'shutdown', 'share': 1}, {'sim': 'hs', 'share': 1, 'env': {'VERIF_ORACLES': 'C16'}}],
     'rule': 'seeded histories driving a real connIDManager and connIDGenerator (limits 2-8, zero-length and non-zero IDs) with NEW/RETIRE_CONNECTION_ID frames through a reordering/duplicating channel, Retire Prior To jumps, '
             'conflicting frames, rotation by packets sent, path probing, expiry, handshake completion and close, against a set model and a real packetHandlerMap; non-trivial = a fault/adversarial op fired; distinct = distinct abstract histories; '
-            'W:shutdown (C17 workload) for the last clause on whole connections (with and without Retry, every way of ending): once all connections have ended and the longest timeout has passed, the transports hold no routed ID, no closed-connection handler and no reset token',
+            'W:shutdown (C17 workload) for the last clause on whole connections (with and without Retry, every way of ending): once all connections have ended and the longest timeout has passed, the transports hold no routed ID, no closed-connection handler and no reset token; '
+            'W:hs (handshakes under duplication, delay and replay) for routing on the wire: a copy of the client\'s first Initial that arrives while the first connection is alive and less than three probe timeouts (lower bound: 6 one-way latencies + 3 ms) after its handshake completed must not make the server set up a second connection',
     'real_vs_stub': 'real: connIDManager, connIDGenerator, packetHandlerMap; stub: peer, channel, clock',
     'assumptions': ['over-acceptance explained by path-probing IDs and the exact error code for conflicting frames are only noted (not stated by the property)'],
     'level_text': 'seeded search over connection-ID histories against a set-based reference model with routing-table and reset-token bookkeeping',
